@@ -48,6 +48,10 @@ def parse_texts():
     for n in (62, 63, 64, 65, 70, 80):
         for tail in (b'-', b'e', b'e+', b'.', b'+1', b'E', b'.5.5'):
             T.append(b'1' * n + tail); T.append(b'0.1' + b'0' * (n - 3) + tail)
+    # duplicate members (kept, in order), keys differing in case, empty keys, escaped keys
+    for t in ['{"a":1,"a":2}', '{"a":{"a":1},"A":2,"a":3}', '{"":1,"":[],"":{}}', '{"a":1,"b":2,"a":null,"b":"x"}', '[{"k":1,"k":1},{"k":2}]',
+              '{"\\u0061":1,"a":2}', '{"a\\/b":1,"a/b":2}', '{ "a" : 1 , "a" : 2 }']:
+        T.append(S(t))
     # wide containers
     for k in (8, 9, 10, 11, 16, 17, 32, 33, 64, 100, 101):
         T.append(b'[' + b','.join(S(str(i)) for i in range(k)) + b']')
